@@ -46,7 +46,10 @@ func (dc *DublinCore) parse(p property) (err error) {
 			dc.TitleLang = append(dc.TitleLang, parseString(p.Value()))
 		}
 	case xmpns.Description:
-		dc.Description = append(dc.Description, parseString(p.Value()))
+		// a language alternative like dc:title and dc:rights: the xml:lang attribute of an item is not an item
+		if p.pt == tagPType {
+			dc.Description = append(dc.Description, parseString(p.Value()))
+		}
 		// Subject
 		// Contributor
 		// Description
